@@ -389,16 +389,17 @@ impl Parser {
 
         debug_assert_eq!(pstn, self.pos - 1);
         if !self.expect(TokenKind::Comma) {
-            self.pos -=2;
-            self.advance();
+            // NOTE: advance() yields Eol once the current token is a comment, so we cannot use it to step back onto the underline
+            self.pos = pstn;
+            self.curr_tkn = self.token_list[pstn].clone();
             return Ok(None)
         }
 
         let x = self.get_env_elements(false)?;
 
         if self.expect(TokenKind::Underline) {
-            self.pos = pstn-1;
-            self.advance();
+            self.pos = pstn;
+            self.curr_tkn = self.token_list[pstn].clone();
             return Ok(None)
         }
 
